@@ -8,6 +8,7 @@
 //	ip <lit>            => <ParseIP(lit)!=nil> <ParseIP(ToLower(lit))!=nil> <every byte is a hex digit, '.' or ':'>
 //	lower <s>           => <strings.ToLower(s)>
 //	valid <d>           => <iptab> <ValidateDomainPart(d)>
+//	hist <mode> <op:a> ... => (see hist.go) a sequence of naming calls in one process, each answered
 //	live <mode> <a>     => (see live.go) RCPT on a real SMTP session, then lookups by address through the manager,
 //	                       the REST API and POP3
 //
@@ -178,6 +179,8 @@ func exec(kind string, in []string) []string {
 		// ValidateDomainPart alone (ranges over runes; the model over bytes), any byte string
 		d := vh.US(in[0])
 		return []string{ipTable(d), vh.B(policy.ValidateDomainPart(d))}
+	case "hist":
+		return execHist(in)
 	case "live":
 		return execLive(in)
 	}
